@@ -126,9 +126,15 @@ def one_run_one_append_rule(ctx, rid):
         rc, ac = runs[0][1], adds[0][1]
         td = arg(rc, None, "to_df")
         tgt = runs[0][0].ast.targets[0] if isinstance(runs[0][0].ast, ast.Assign) else None
+        # the drawn (names, cases) pair: `<names>, <cases> = self.gen_cases_fnargs(...)` (the generator returns (fn_args, cases))
+        gt = gens[0][0].ast.targets[0] if isinstance(gens[0][0].ast, ast.Assign) else None
+        if not (isinstance(gt, ast.Tuple) and len(gt.elts) == 2 and all(isinstance(e_, ast.Name) for e_ in gt.elts)):
+            raise AnalysisError("idiom changed: sample_combos does not unpack gen_cases_fnargs into (names, cases)")
+        NAMES, CASES = gt.elts[0].id, gt.elts[1].id
+        a_cases, a_names = arg(rc, 0, "cases"), arg(rc, None, "fn_args")
         ok = td is not None and isinstance(td, ast.Constant) and td.value is True and tgt is not None and norm(ac.args[0]) == norm(tgt) \
             and g.completes_before(runs[0][0].id, adds[0][0].id) and g.completes_before(adds[0][0].id, g.exit.id) \
-            and norm(arg(rc, 0, "cases")) == "cases" and norm(arg(rc, None, "fn_args")) == "fn_args"
+            and a_cases is not None and a_names is not None and norm(a_cases) == CASES and norm(a_names) == NAMES
     if ok:
         rr.ok("sample_combos: gen_cases_fnargs -> run_cases(cases, fn_args=fn_args, to_df=True) once -> add_df(that frame) once")
     else:
@@ -153,36 +159,48 @@ def draws_rule(ctx, rid):
     ctx.touch(f, g)
     # layering of the mapping the draws come from: later layers win
     layers = {}
-    order_nodes = sorted((n for n in walk_shallow(f.node) if isinstance(n, (ast.Assign, ast.Expr))), key=lambda n: (n.lineno, n.col_offset))
     param = f.positional[2] if len(f.positional) > 2 else "combos"
     layers[param] = ["<run>"]
-    for n in order_nodes:
-        if isinstance(n, ast.Assign) and len(n.targets) == 1 and isinstance(n.targets[0], ast.Name):
-            t, v = n.targets[0].id, n.value
-            def lay(e):
-                if isinstance(e, ast.Name):
-                    return list(layers.get(e.id, ["?" + e.id]))
-                if norm(e) == "self.default_combos":
-                    return ["<defaults>"]
-                if isinstance(e, ast.Dict) and all(k is None for k in e.keys):
-                    out = []
-                    for x in e.values:
-                        out += lay(x)
-                    return out
-                if isinstance(e, ast.Dict) and not e.keys:
-                    return []
-                if isinstance(e, ast.Call) and norm(e.func) == "dict" and len(e.args) <= 1:
-                    return lay(e.args[0]) if e.args else []
-                if isinstance(e, ast.IfExp):
-                    a_, b_ = lay(e.body), lay(e.orelse)
-                    return a_ if a_ else b_
-                return ["?"]
-            layers[t] = lay(v)
-        elif isinstance(n, ast.Expr) and isinstance(n.value, ast.Call) and isinstance(n.value.func, ast.Attribute) and n.value.func.attr == "update" and isinstance(n.value.func.value, ast.Name) and len(n.value.args) == 1:
-            t = n.value.func.value.id
-            a = n.value.args[0]
-            add = list(layers.get(a.id, ["?" + a.id])) if isinstance(a, ast.Name) else (["<defaults>"] if norm(a) == "self.default_combos" else ["?"])
-            layers[t] = layers.get(t, []) + add
+
+    def lay(e, layers):
+        if isinstance(e, ast.Name):
+            return list(layers.get(e.id, ["?" + e.id]))
+        if norm(e) == "self.default_combos":
+            return ["<defaults>"]
+        if isinstance(e, ast.Dict) and all(k is None for k in e.keys):
+            out = []
+            for x in e.values:
+                out += lay(x, layers)
+            return out
+        if isinstance(e, ast.Dict) and not e.keys:
+            return []
+        if isinstance(e, ast.Call) and norm(e.func) == "dict" and len(e.args) <= 1:
+            return lay(e.args[0], layers) if e.args else []
+        if isinstance(e, ast.IfExp):
+            a_, b_ = lay(e.body, layers), lay(e.orelse, layers)
+            return a_ if a_ else b_
+        return ["?"]
+
+    def process(stmts, layers):
+        for n in stmts:
+            if isinstance(n, ast.Assign) and len(n.targets) == 1 and isinstance(n.targets[0], ast.Name):
+                layers[n.targets[0].id] = lay(n.value, layers)
+            elif isinstance(n, ast.Expr) and isinstance(n.value, ast.Call) and isinstance(n.value.func, ast.Attribute) and n.value.func.attr == "update" and isinstance(n.value.func.value, ast.Name) and len(n.value.args) == 1:
+                t = n.value.func.value.id
+                a = n.value.args[0]
+                add = list(layers.get(a.id, ["?" + a.id])) if isinstance(a, ast.Name) else (["<defaults>"] if norm(a) == "self.default_combos" else ["?"])
+                layers[t] = layers.get(t, []) + add
+            elif isinstance(n, ast.If):
+                la, lb = dict(layers), dict(layers)
+                process(n.body, la)
+                process(n.orelse, lb)
+                for k in set(la) | set(lb):
+                    va, vb = la.get(k, layers.get(k, [])), lb.get(k, layers.get(k, []))
+                    # the two arms normalise one value (None -> {}, mapping -> dict(mapping)): the informative arm
+                    layers[k] = va if va else vb
+            elif isinstance(n, (ast.For, ast.While, ast.With, ast.Try)):
+                process(getattr(n, "body", []), layers)
+    process([st_ for st_ in f.node.body], layers)
     # the mapping actually iterated for the draws
     src = None
     for x in ast.walk(f.node):
